@@ -265,6 +265,12 @@ def floatDistanceOverflows32 (x y : UInt32) : Bool :=
     -- -d overflows iff d = INT_MIN
     ((x ^^^ y) &&& (x ^^^ d)) >>> 31 == 1 || d == 0x80000000
 
+def floatDistanceOverflows64 (x y : UInt64) : Bool :=
+  if !(ftNegative64 x == ftNegative64 y) then false
+  else
+    let d := x - y
+    ((x ^^^ y) &&& (x ^^^ d)) >>> 63 == 1 || d == 0x8000000000000000
+
 /-! ## `equal/notEqual(x, y, int MaxULPs)` -/
 
 /-- scalar (ext/scalar_relational.inl:20-33):
